@@ -657,6 +657,39 @@ end S18
 
 open S18
 
+/-! ## concrete data for the non-vacuity examples -/
+namespace Ex18
+
+/-- the worked molecule of `VermouthProps/C18.lean` after virtual-site creation (10 nodes, keys 2..13) -/
+def atoms : List C18.Atom :=
+  C18.withSites C18.Example.atoms (C18.addVirtualSites "mol_0" "BB" "CA" C18.Example.atoms)
+def edges : List (Int × Int) := C18.Example.edges
+def contacts : List C18.Contact := C18.Example.contacts
+def P : C18.Params := C18.Example.P
+
+/-- rotation by 90 degrees about z -/
+def rotZ : Mat3 := ⟨(0, -1, 0), (1, 0, 0), (0, 0, 1)⟩
+def t : V3 := (5, -7, 11)
+
+/-- strictly increasing on the keys 2..13 that occur, NOT strictly increasing on all integers -/
+def ρ (k : Int) : Int := if k ≤ 13 then 3 * k - 20 else 0
+
+/-- globally strictly increasing -/
+def dbl (k : Int) : Int := 2 * k
+
+/-- three one-bead residues of chain A; the first two carry the same `_old_resid` 1 -/
+def mkBB (key resid old : Int) (ty : String) (p : C18.Pos) : C18.Atom :=
+  { key := key, atomname := "BB", resid := resid, oldResid := old, resname := "ALA", chain := "A", atype := ty,
+    cg := none, pos := p, ss := none }
+def dupAtoms : List C18.Atom :=
+  [mkBB 1 1 1 "g_1" (0, 0, 0), mkBB 2 2 1 "g_2" (10, 0, 0), mkBB 3 3 3 "g_3" (0, 3, 0)]
+def dupContacts : List C18.Contact := [⟨1, "A", 3, "A"⟩, ⟨3, "A", 1, "A"⟩]
+def Pd : C18.Params := { pre := "g", backbone := "BB", low := ⟨1, 1⟩, up := ⟨5, 1⟩, sep := 0 }
+/-- injective, not order preserving -/
+def swap12 (k : Int) : Int := if k = 1 then 2 else if k = 2 then 1 else k
+
+end Ex18
+
 /-! ## (A) rigid motion -/
 
 /-- **the contact selection is invariant under every isometry of the positions**: the same Go pairs with the same
@@ -667,6 +700,11 @@ theorem c18_select_isometry_invariant (f : C18.Pos → C18.Pos)
     C18.selectContacts P (atoms.map (moveAtom18 f)) edges contacts = C18.selectContacts P atoms edges contacts := by
   have := select_pres (pres_move f hf) P atoms edges contacts (monoOn_id _)
   rwa [rekeyEdges_id, Outcome.rekey_id] at this
+
+/-- the hypothesis holds for a translation (and for every `move A t`, `A.IsOrtho`, see below) -/
+example : ∀ p q : C18.Pos, C18.dist2 (V3.add p Ex18.t) (V3.add q Ex18.t) = C18.dist2 p q := by
+  intro p q
+  rw [c18_dist2_eq, c18_dist2_eq, sqdist_translate]
 
 /-- **`GoPipeline` commutes with every isometry**: the virtual sites of the moved molecule are the moved virtual
 sites (same keys, types, charge groups, ...), and the outcome of the contact selection is the same. -/
@@ -689,6 +727,13 @@ theorem c18_select_rigid_invariant (A : Mat3) (hA : A.IsOrtho) (t : V3)
       = C18.selectContacts P atoms edges contacts :=
   c18_select_isometry_invariant (move A t) (go_distance_rigid_invariant A hA t) P atoms edges contacts
 
+example : Ex18.rotZ.IsOrtho := by decide
+/-- the concrete instance, computed on both sides: one Go pair, emitted at the second occurrence of the contact -/
+example : C18.selectContacts Ex18.P Ex18.atoms Ex18.edges Ex18.contacts
+    = .ok [{ ta := "mol_0_4", tb := "mol_0_1", d2 := 25, bbA := 9, bbB := 2 }] := by decide
+example : C18.selectContacts Ex18.P (Ex18.atoms.map (moveAtom18 (move Ex18.rotZ Ex18.t))) Ex18.edges Ex18.contacts
+    = .ok [{ ta := "mol_0_4", tb := "mol_0_1", d2 := 25, bbA := 9, bbB := 2 }] := by decide
+
 theorem c18_pipeline_rigid_equivariant (A : Mat3) (hA : A.IsOrtho) (t : V3)
     (P : C18.Params) (vsn : String) (atoms : List C18.Atom) (edges : List (Int × Int))
     (contacts : List C18.Contact) :
@@ -696,6 +741,10 @@ theorem c18_pipeline_rigid_equivariant (A : Mat3) (hA : A.IsOrtho) (t : V3)
       = (((C18.goPipeline P vsn atoms edges contacts).1.map (fun v => { v with pos := move A t v.pos })),
          (C18.goPipeline P vsn atoms edges contacts).2) :=
   c18_pipeline_isometry_equivariant (move A t) (go_distance_rigid_invariant A hA t) P vsn atoms edges contacts
+
+example : ((C18.goPipeline Ex18.P "CA" (C18.Example.atoms.map (moveAtom18 (move Ex18.rotZ Ex18.t)))
+      Ex18.edges Ex18.contacts).1.map (fun v => (v.key, v.pos)))
+    = [(10, (5, -7, 11)), (11, (5, -6, 11)), (12, (1, -7, 11)), (13, (1, -4, 11))] := by decide
 
 /-- the exclusions and the `nonbond_params` pairs written for the moved molecule are those of the original -/
 theorem c18_exclusions_rigid_invariant (A : Mat3) (hA : A.IsOrtho) (t : V3)
@@ -705,17 +754,36 @@ theorem c18_exclusions_rigid_invariant (A : Mat3) (hA : A.IsOrtho) (t : V3)
       ∧ C18.exclusionsOf out' = C18.exclusionsOf out ∧ C18.nonbondOf out' = C18.nonbondOf out :=
   ⟨out, by rw [c18_select_rigid_invariant A hA t, hok], rfl, rfl⟩
 
-/-! ## (B) renumbering of the node keys -/
+example : ∃ out, C18.selectContacts Ex18.P Ex18.atoms Ex18.edges Ex18.contacts = .ok out ∧ out ≠ [] :=
+  ⟨[{ ta := "mol_0_4", tb := "mol_0_1", d2 := 25, bbA := 9, bbB := 2 }], by decide, by decide⟩
+
+/-! ## (B) renumbering of the node keys
+
+What is needed of `ρ`: STRICTLY INCREASING ON THE KEYS THE MOLECULE MENTIONS (`keys18`: node keys and both end
+points of every edge, dangling ones included).  Order preservation on the node keys is what keeps the residue order
+(`sorted(partitions, key=min)`), hence the residue indices, hence which residue wins in `_chain_id_to_resnode`;
+injectivity on node keys + edge end points is what keeps `partition_graph` (an end point that is not a node key must
+not be sent onto a node key).  Nothing is required outside these keys.  Member order inside a residue is node order
+and is not affected. -/
 
 /-- **the contact selection commutes with every renumbering of the node keys that is strictly increasing on the
-keys the molecule mentions** (node keys and edge end points): same pairs, types, squared distances, order and
-error outcome; the backbone keys are the renumbered ones. -/
+keys the molecule mentions**: same pairs, types, squared distances, order and error outcome; the backbone keys
+are the renumbered ones. -/
 theorem c18_select_rekey_equivariant (ρ : Int → Int)
     (P : C18.Params) (atoms : List C18.Atom) (edges : List (Int × Int)) (contacts : List C18.Contact)
     (hρ : ∀ x ∈ keys18 atoms edges, ∀ y ∈ keys18 atoms edges, x < y → ρ x < ρ y) :
     C18.selectContacts P (atoms.map (rekey18 ρ)) (edges.map (fun e => (ρ e.1, ρ e.2))) contacts
       = Outcome.rekey ρ (C18.selectContacts P atoms edges contacts) :=
   select_pres (pres_rekey ρ) P atoms edges contacts hρ
+
+example : ∀ x ∈ keys18 Ex18.atoms Ex18.edges, ∀ y ∈ keys18 Ex18.atoms Ex18.edges, x < y → Ex18.ρ x < Ex18.ρ y := by
+  decide
+/-- ... although `Ex18.ρ` is not increasing outside the keys that occur -/
+example : ¬ (∀ x y : Int, x < y → Ex18.ρ x < Ex18.ρ y) := fun h => absurd (h 13 14 (by decide)) (by decide)
+/-- the renumbered molecule, computed: the same pair, backbone keys `ρ 9 = 7`, `ρ 2 = -14` -/
+example : C18.selectContacts Ex18.P (Ex18.atoms.map (rekey18 Ex18.ρ))
+      (Ex18.edges.map (fun e => (Ex18.ρ e.1, Ex18.ρ e.2))) Ex18.contacts
+    = .ok [{ ta := "mol_0_4", tb := "mol_0_1", d2 := 25, bbA := 7, bbB := -14 }] := by decide
 
 /-- exclusions of the renumbered molecule are the renumbered exclusions, the `nonbond_params` pairs are the same -/
 theorem c18_exclusions_rekey_equivariant (ρ : Int → Int)
@@ -729,5 +797,140 @@ theorem c18_exclusions_rekey_equivariant (ρ : Int → Int)
   · rw [c18_select_rekey_equivariant ρ P atoms edges contacts hρ, hok]; rfl
   · simp only [C18.exclusionsOf, List.map_map]; rfl
   · simp only [C18.nonbondOf, List.map_map]; rfl
+
+/-- **an injective renumbering that does not preserve the order changes the outcome, not only the names.**
+Residues 1 and 2 of chain A carry the same `_old_resid` 1 (so `KeysDistinct` fails); the contact map lists A1-A3 in
+both directions.  With the keys 1, 2, 3 the residue order is (1, 2, 3), `_chain_id_to_resnode` resolves (A, 1) to
+residue 2 (the later one wins), which is too far from residue 3: nothing is emitted.  After exchanging the keys 1
+and 2 the residue order is (2, 1, 3), (A, 1) resolves to residue 1, which is at distance 3: a Go pair is emitted. -/
+theorem c18_rekey_nonmonotone_witness :
+    (∀ x ∈ keys18 Ex18.dupAtoms [], ∀ y ∈ keys18 Ex18.dupAtoms [], Ex18.swap12 x = Ex18.swap12 y → x = y)
+    ∧ (Ex18.dupAtoms.map (·.key)).Nodup
+    ∧ C18.selectContacts Ex18.Pd Ex18.dupAtoms [] Ex18.dupContacts = .ok []
+    ∧ C18.selectContacts Ex18.Pd (Ex18.dupAtoms.map (rekey18 Ex18.swap12)) [] Ex18.dupContacts
+        = .ok [{ ta := "g_3", tb := "g_1", d2 := 9, bbA := 3, bbB := 2 }]
+    ∧ C18.selectContacts Ex18.Pd (Ex18.dupAtoms.map (rekey18 Ex18.swap12)) [] Ex18.dupContacts
+        ≠ Outcome.rekey Ex18.swap12 (C18.selectContacts Ex18.Pd Ex18.dupAtoms [] Ex18.dupContacts) := by
+  decide
+
+/-- in the witness two residues share (chain, `_old_resid`): the decidable criterion for `KeysDistinct` fails -/
+example : ¬ ((C18.residuesOf Ex18.dupAtoms).map (fun r => (r.chain, r.old))).Nodup := by decide
+
+/-! NOT PROVED (believed true, no counterexample found): if the node keys are pairwise distinct and
+`C18.KeysDistinct (C18.residuesOf atoms)` holds, then `c18_select_rekey_equivariant` holds for every `ρ` that is
+merely INJECTIVE on `keys18 atoms edges`.  Reason: the residue list of the renumbered molecule is then a
+permutation `σ` of the renumbered residue list, `findRes` and `resIndexOf` are determined by content (unique
+(chain, `_old_resid`), unique node key) so all residue indices and the residue-graph edges are transported by `σ`,
+and `ball` is invariant under graph isomorphism.  The proof needs the transport of `Within` along `σ` and is not
+done here.  The order of the residues matters only through the "last one wins" rule of `findRes` (witness above)
+and through ties of `sortResidues` / first hits of `resIndexOf`, which need repeated node keys.  A supporting
+instance: the order-REVERSING renumbering `k ↦ 20 - k` of the worked molecule (which satisfies `KeysDistinct`)
+gives the renamed outcome. -/
+example : ((C18.residuesOf Ex18.atoms).map (fun r => (r.chain, r.old))).Nodup ∧ (Ex18.atoms.map (·.key)).Nodup := by
+  decide
+example : C18.selectContacts Ex18.P (Ex18.atoms.map (rekey18 (fun k => 20 - k)))
+      (Ex18.edges.map (fun e => (20 - e.1, 20 - e.2))) Ex18.contacts
+    = Outcome.rekey (fun k => 20 - k) (C18.selectContacts Ex18.P Ex18.atoms Ex18.edges Ex18.contacts) := by decide
+
+/-! ### `GoPipeline` under renumbering
+
+`add_virtual_sites` numbers the new nodes `max key + 1, max key + 2, ...`.  A strictly increasing `ρ` commutes
+neither with `max ... + 1` nor with `+ 1`, so the site keys of the renumbered molecule are NOT the renumbered site
+keys (`c18_pipeline_rekey_site_keys_witness`).  What holds: the site keys of the renumbered molecule are
+`ρ (max key) + 1, ...`, i.e. the images under `extendKey ρ (max key)`; every other attribute of the sites is the
+same, `bb` is renumbered by `ρ`, and the outcome of the contact selection is renumbered by the extended map - which
+is `ρ` itself on the emitted backbone keys as soon as the sites are not named like the backbone bead. -/
+
+theorem c18_pipeline_rekey_site_keys_witness :
+    (∀ x y : Int, x < y → Ex18.dbl x < Ex18.dbl y)
+    ∧ (C18.goPipeline Ex18.P "CA" (C18.Example.atoms.map (rekey18 Ex18.dbl))
+          (Ex18.edges.map (fun e => (Ex18.dbl e.1, Ex18.dbl e.2))) Ex18.contacts).1.map (·.key) = [19, 20, 21, 22]
+    ∧ (C18.goPipeline Ex18.P "CA" C18.Example.atoms Ex18.edges Ex18.contacts).1.map (fun v => Ex18.dbl v.key)
+        = [20, 22, 24, 26] := by
+  refine ⟨fun x y h => by unfold Ex18.dbl; omega, by decide, by decide⟩
+
+/-- **`GoPipeline` commutes with a renumbering that is strictly increasing on the node keys, the renumbering being
+extended to the new site keys by `extendKey`** (non-empty molecule, every edge end point is a node key). -/
+theorem c18_pipeline_rekey_equivariant (ρ : Int → Int)
+    (P : C18.Params) (vsn : String) (atoms : List C18.Atom) (edges : List (Int × Int))
+    (contacts : List C18.Contact) (hne : atoms ≠ [])
+    (hρ : ∀ x ∈ atoms.map (·.key), ∀ y ∈ atoms.map (·.key), x < y → ρ x < ρ y)
+    (hE : ∀ e ∈ edges, e.1 ∈ atoms.map (·.key) ∧ e.2 ∈ atoms.map (·.key)) :
+    C18.goPipeline P vsn (atoms.map (rekey18 ρ)) (edges.map (fun e => (ρ e.1, ρ e.2))) contacts
+      = ((C18.goPipeline P vsn atoms edges contacts).1.map
+            (rekeySite18 ρ (extendKey ρ (C18.maxInts (atoms.map (·.key))))),
+         Outcome.rekey (extendKey ρ (C18.maxInts (atoms.map (·.key))))
+            (C18.goPipeline P vsn atoms edges contacts).2) := by
+  have hle : ∀ x ∈ atoms.map (·.key), extendKey ρ (C18.maxInts (atoms.map (·.key))) x = ρ x :=
+    fun x hx => extendKey_le (C18.le_maxInts _ x hx)
+  have hEd : edges.map (fun e => (ρ e.1, ρ e.2))
+      = rekeyEdges18 (extendKey ρ (C18.maxInts (atoms.map (·.key)))) edges := by
+    unfold rekeyEdges18
+    apply List.map_congr_left
+    intro e he
+    rw [hle _ (hE e he).1, hle _ (hE e he).2]
+  unfold C18.goPipeline
+  simp only
+  rw [addVirtualSites_rekey ρ _ _ _ atoms hne hρ,
+    withSites_rekey ρ _ atoms _ (fun a ha => hle _ (List.mem_map_of_mem ha)), hEd,
+    select_pres (pres_rekey _) P _ edges contacts (monoOn_extend ρ _ _ _ atoms edges hne hρ hE)]
+
+example : C18.Example.atoms ≠ [] := by decide
+example : ∀ x ∈ C18.Example.atoms.map (·.key), ∀ y ∈ C18.Example.atoms.map (·.key), x < y → Ex18.ρ x < Ex18.ρ y := by
+  decide
+example : ∀ e ∈ Ex18.edges, e.1 ∈ C18.Example.atoms.map (·.key) ∧ e.2 ∈ C18.Example.atoms.map (·.key) := by decide
+/-- computed: the new site keys continue after `ρ 9 = 7`, the emitted backbone keys are `ρ 9`, `ρ 2` -/
+example : (C18.goPipeline Ex18.P "CA" (C18.Example.atoms.map (rekey18 Ex18.ρ))
+      (Ex18.edges.map (fun e => (Ex18.ρ e.1, Ex18.ρ e.2))) Ex18.contacts)
+    = ((C18.goPipeline Ex18.P "CA" C18.Example.atoms Ex18.edges Ex18.contacts).1.map
+          (rekeySite18 Ex18.ρ (fun k => k - 2)),
+       .ok [{ ta := "mol_0_4", tb := "mol_0_1", d2 := 25, bbA := 7, bbB := -14 }]) := by decide
+
+/-- every emitted backbone key is the key of a node of the INPUT molecule when the sites are not named like the
+backbone bead -/
+theorem c18_pipeline_bb_old (P : C18.Params) (vsn : String) (atoms : List C18.Atom) (edges : List (Int × Int))
+    (contacts : List C18.Contact) (hvs : vsn ≠ P.backbone) (out : List C18.Cand)
+    (hok : (C18.goPipeline P vsn atoms edges contacts).2 = .ok out) (y : C18.Cand) (hy : y ∈ out) :
+    y.bbA ∈ atoms.map (·.key) ∧ y.bbB ∈ atoms.map (·.key) := by
+  obtain ⟨⟨c, _, hel⟩, _⟩ := C18.go_pair_sound P _ _ contacts out hok y hy
+  obtain ⟨ia, ib, ra, rb, a, b, _, _, _, hra, hrb, ha, hb, _, _, _, _, _, hA, hB⟩ := hel
+  have key : ∀ (i : Nat) (r : C18.Residue) (a : C18.Atom),
+      (C18.residuesOf (C18.withSites atoms (C18.addVirtualSites P.pre P.backbone vsn atoms)))[i]? = some r →
+      C18.firstBB r P.backbone = some a → a.key ∈ atoms.map (·.key) := by
+    intro i r a hr hf
+    obtain ⟨hm, hn⟩ := C18.firstBB_some hf
+    have hmem := (C18.mem_residuesOf _ a).mp ⟨r, List.mem_of_getElem? hr, hm⟩
+    unfold C18.withSites at hmem
+    rcases List.mem_append.mp hmem with h1 | h1
+    · exact List.mem_map_of_mem h1
+    · obtain ⟨v, hv, rfl⟩ := List.mem_map.mp h1
+      obtain ⟨a0, _, _, _, _, _, _, _, _, _, _, _, hname, _⟩ := C18.vs_attributes _ _ _ _ v hv
+      exact absurd (hname.symm.trans hn) hvs
+  rw [hA, hB]
+  exact ⟨key ia ra a hra ha, key ib rb b hrb hb⟩
+
+/-- **the outcome of `GoPipeline` on the renumbered molecule is the renumbered outcome** (sites not named like the
+backbone bead; non-empty molecule; `ρ` strictly increasing on the node keys; every edge end point is a node key) -/
+theorem c18_pipeline_rekey_outcome (ρ : Int → Int)
+    (P : C18.Params) (vsn : String) (atoms : List C18.Atom) (edges : List (Int × Int))
+    (contacts : List C18.Contact) (hne : atoms ≠ []) (hvs : vsn ≠ P.backbone)
+    (hρ : ∀ x ∈ atoms.map (·.key), ∀ y ∈ atoms.map (·.key), x < y → ρ x < ρ y)
+    (hE : ∀ e ∈ edges, e.1 ∈ atoms.map (·.key) ∧ e.2 ∈ atoms.map (·.key)) :
+    (C18.goPipeline P vsn (atoms.map (rekey18 ρ)) (edges.map (fun e => (ρ e.1, ρ e.2))) contacts).2
+      = Outcome.rekey ρ (C18.goPipeline P vsn atoms edges contacts).2 := by
+  rw [c18_pipeline_rekey_equivariant ρ P vsn atoms edges contacts hne hρ hE]
+  simp only
+  cases hout : (C18.goPipeline P vsn atoms edges contacts).2 with
+  | exit => rfl
+  | keyerror => rfl
+  | ok out =>
+    simp only [Outcome.rekey]
+    congr 1
+    apply List.map_congr_left
+    intro y hy
+    obtain ⟨h1, h2⟩ := c18_pipeline_bb_old P vsn atoms edges contacts hvs out hout y hy
+    simp only [Cand.rekey, extendKey_le (C18.le_maxInts _ _ h1), extendKey_le (C18.le_maxInts _ _ h2)]
+
+example : ("CA" : String) ≠ Ex18.P.backbone := by decide
 
 end C11
